@@ -96,7 +96,7 @@ func (propC10) ColdPlan(tier string) (int, int) {
 	if tier == "thorough" {
 		return 400, 80
 	}
-	return 32, 12
+	return 32, 16
 }
 
 // genColdOp: operations whose first use builds package-level tables (gamma and
@@ -151,8 +151,44 @@ func (propC10) Gen(seed uint64, tier string, idx int) any {
 			p.Sched.Policy = vsim.PolUniform
 		}
 		nc := r.Range(2, 5)
+		// 60 % of cold runs have a theme: every client's first call goes through the same
+		// lazily initialised subsystem, so that its first-use initialisation is contended
+		theme := -1
+		if r.Pct(60) {
+			theme = r.Intn(6)
+		}
 		for c := 0; c < nc; c++ {
-			p.Clients = append(p.Clients, []Op{genColdOp(r)})
+			op := genColdOp(r)
+			lossy := func() {
+				if op.Opt.Lossless {
+					op.Opt = GenLossyOpts(r, 0, false)
+				}
+			}
+			switch theme {
+			case 0:
+				lossy()
+				op.Kind, op.Opt.UseSharpYUV = "enc", true
+			case 1:
+				lossy()
+				op.Kind, op.Opt.Preprocessing = "enc", r.Pick(2, 3)
+			case 2:
+				if !op.Opt.Lossless {
+					op.Opt = GenLosslessOpts(r, 0)
+				}
+				op.Kind = "enc"
+			case 3:
+				lossy()
+				op.Kind = "dec"
+			case 4:
+				if !op.Opt.Lossless {
+					op.Opt = GenLosslessOpts(r, 0)
+				}
+				op.Kind = "dec"
+			case 5:
+				lossy()
+				op.Kind, op.Img.Type, op.Img.Alpha = "enc", r.PickS("ycbcr", "gray"), "opaque"
+			}
+			p.Clients = append(p.Clients, []Op{op})
 		}
 		return p
 	}
